@@ -50,8 +50,13 @@ impl PendingTxs {
     }
 
     pub fn push(&mut self, tx: TransactionView, cycles: Cycle) {
-        self.txs
-            .insert(tx.hash(), (tx.data(), cycles, HashSet::new()));
+        // a resubmitted transaction keeps the set of peers it has been announced to
+        let announced = self
+            .txs
+            .remove(&tx.hash())
+            .map(|(_, _, peers)| peers)
+            .unwrap_or_default();
+        self.txs.insert(tx.hash(), (tx.data(), cycles, announced));
         if self.txs.len() > self.limit {
             self.txs.pop_front();
         }
